@@ -196,7 +196,7 @@ impl TestFilterPatterns {
                 mut skip_patterns,
                 skip_exact_patterns,
             } => {
-                if skip_patterns.is_empty() {
+                if skip_patterns.is_empty() && skip_exact_patterns.is_empty() {
                     Ok(ResolvedFilterPatterns::All)
                 } else {
                     // sort_unstable allows the PartialEq implementation to work correctly.
